@@ -68,7 +68,7 @@ def gen(tier, rng, own=()):
                                              meta={"family": "one-shot-every-output-size", "parent": name, "cpu": cpu, "complete_supply": True}))
     # (c) grammar-level single faults with the documented error class
     for fault, cls in defgen.FAULTS.items():
-        for rep in range(2 if tier == "quick" else 8):
+        for rep in range((2 if tier == "quick" else 8) * (3 if fault == "rep16_first" else 1)):      # (the exact form of rep16_first needs literals 0-2 unused)
             plan = ["dynamic"] if fault in ("oversubscribed_ll", "oversubscribed_cl", "no_eob", "rep16_first", "rep_past_end") or fault.startswith("extra_code") else \
                    ["fixed"] if fault in ("dist_sym_30", "ll_sym_286") else ["stored"] if fault == "len_nlen" else ["fixed", "dynamic"]
             st = defgen.too_far_stream(rng) if fault == "dist_too_far" else defgen.make_stream(rng, plan, fault=fault, fault_block=0 if fault != "btype3" else rng.choice([0, 1]))
